@@ -54,7 +54,7 @@ def teardown(ctx):
 
 
 def cases(ctx):
-    n = 500 if ctx.tier == 'quick' else 50000
+    n = 500 if ctx.tier == 'quick' else 300000
     for i in range(n):
         yield {'i': i}
 
